@@ -19,7 +19,7 @@ RULE = (
     "differing in key only / message only under distinct draws must give distinct r. sig-api: bits.sig over messages 0..200 bytes x "
     "six flags|None x both preimage modes, with the private key solved so that DER padding classes occur through the public API; "
     "sig_verify with both SEC1 forms. der-codec: der_encode_sig/der_decode_sig over every byte length 1..32 x top bit x fills. "
-    "small-curve: ALL (d, z in [0,n+2], first draw k in [0,n-1]) on retargeted curves. Oracle: reference verifier, OpenSSL "
+    "small-curve: ALL (d, z in [0,n+2], first draw k in [0,n-1]) on retargeted curves of up to 200 points (on the 829-point curve of the thorough tier: all d and k, the boundary digests and 30 others per key). Oracle: reference verifier, OpenSSL "
     "(Prehashed) on strict DER, BIP66 checker, ranges, low-S. Non-trivial: any boundary class label (digest>=n, digest==0, key "
     "boundary/leading zeros, draw-zero, s-retry, s-negated, r/s short or padded, ANYONECANPAY flag, preimage mode, pair)."
 )
@@ -335,12 +335,16 @@ def check_small(case):
     f = Fails()
     cls = ["nt:small-curve-p%d" % p]
     saved = em.secrets
+    stub = rng.ScriptedSecrets([])
+    em.secrets = stub
+    rng.sync(em.secrets)  # installed once per case; every (z, k) starts it afresh
+    # every (digest, nonce) pair on the curves of up to 200 points; on the largest one (829 points: 690,000 pairs per key)
+    # every nonce with the boundary digests and a spread of the others
+    zs = range(0, n + 3) if n <= 200 else sorted({0, 1, 2, n - 2, n - 1, n, n + 1, n + 2} | {(d * 37 + j * 29) % n for j in range(30)})
     try:
-        for z in range(0, n + 3):
+        for z in zs:
             for k in range(0, n):
-                stub = rng.ScriptedSecrets([k])
-                em.secrets = stub
-                rng.sync(em.secrets)
+                stub.reset([k])
                 res = attempt(em.sign, d, z)
                 if raised(res):
                     f.add(f"small/sign-raises-{res.kind}", f"p={p} d={d} z={z} k={k}: {res}")
